@@ -330,6 +330,6 @@ func c01Describe(in []int64) string {
 }
 
 func init() {
-	Register(&Prop{ID: "C01", Num: 1, SpecMode: "none", Gen: c01Gen, ImplM: c01ImplM, Describe: c01Describe,
+	Register(&Prop{ID: "C01", Num: 1, SpecMode: "rel", Gen: c01Gen, ImplM: c01ImplM, Describe: c01Describe,
 		Rule: "each case = ring capacity, counter base (incl. values next to 2^32), fill level, per-thread programs of Push/Pop and a schedule of thread ids; the real SyncRing runs under the atomic shim (goroutines parked before and after every sync/atomic call), the model runs the same schedule; compared: every atomic operation (kind, location, operands, result) in order, every return value, final head/tail/slots. exhaustive: all interleavings of 2 threads x 1 op; random: 2-4 threads x 1-3 ops. every case is distinct and non-trivial (>= 2 threads interleaved)"})
 }
